@@ -35,6 +35,7 @@ var (
 	flagTimeout  = flag.Int("solver-timeout", 30000, "per-query solver timeout ms")
 	flagEvidence = flag.String("evidence", "", "evidence file (default <verif>/evidence/<prop>.json)")
 	flagSMTLog   = flag.String("smtlog", "", "dump SMT-LIB traffic to this file (single harness)")
+	flagBudget   = flag.Int("budget", 0, "exploration time budget in seconds (default: 600 quick, 7200 thorough; $VERIF_BUDGET)")
 	flagSelftest = flag.Bool("selftest", false, "run engine self tests")
 	flagReplayF  = flag.String("replay", "", "re-run a stored replay json natively")
 )
@@ -690,6 +691,17 @@ func main() {
 		os.Exit(2)
 	}
 	loadS := time.Since(t0).Seconds()
+	budget := *flagBudget
+	if budget == 0 {
+		if v, err := strconv.Atoi(os.Getenv("VERIF_BUDGET")); err == nil && v > 0 {
+			budget = v
+		} else if *flagTier == "thorough" {
+			budget = 7200
+		} else {
+			budget = 600
+		}
+	}
+	exploreDeadline = time.Now().Add(time.Duration(budget) * time.Second)
 	jobs := *flagJobs
 	if jobs <= 0 {
 		jobs = 16
